@@ -299,3 +299,90 @@ Section Pool.
     fun f => if memb f ws then own f else o f.
   Definition pobserve (o : pobj) (rs : list nat) : list V := map o rs.
 End Pool.
+
+(* ---- values: what a request COMPUTES (semantic isolation, not only footprints) ---- *)
+
+(* A request body with data: registers are private to the goroutine (the request, decoded
+   payload, response under construction ...), memory is shared. Locks and atomics carry no
+   data here ([VSync]): blocking only removes interleavings, so a statement over all
+   interleavings of this machine covers the blocking one. *)
+Section Values.
+  Variable V : Type.
+  Definition vregs := list V.
+  Inductive vaction :=
+  | VRead (r x : nat)                      (* r := mem[x] *)
+  | VWrite (x : nat) (f : vregs -> V)      (* mem[x] := f regs *)
+  | VLocal (r : nat) (f : vregs -> V)      (* r := f regs : decoding, validation, encoding *)
+  | VSync.
+  Definition vthread := list vaction.
+  Definition vmem := nat -> V.
+
+  Fixpoint set_reg (l : vregs) (i : nat) (v : V) : vregs :=
+    match l, i with
+    | [], _ => []
+    | _ :: r, 0 => v :: r
+    | a :: r, S i' => a :: set_reg r i' v
+    end.
+  Definition get_reg (d : V) (l : vregs) (i : nat) : V := nth i l d.
+  Definition updm (m : vmem) (x : nat) (v : V) : vmem := fun y => if Nat.eqb y x then v else m y.
+
+  Definition vexec (a : vaction) (s : vregs * vmem) : vregs * vmem :=
+    match a with
+    | VRead r x => (set_reg (fst s) r (snd s x), snd s)
+    | VWrite x f => (fst s, updm (snd s) x (f (fst s)))
+    | VLocal r f => (set_reg (fst s) r (f (fst s)), snd s)
+    | VSync => s
+    end.
+  Fixpoint vrun (acts : list vaction) (s : vregs * vmem) : vregs * vmem :=
+    match acts with [] => s | a :: r => vrun r (vexec a s) end.
+
+  (* the request running ALONE from the initial memory, after k of its own steps *)
+  Definition solo (th : vthread) (rg0 : vregs) (m0 : vmem) (k : nat) : vregs * vmem :=
+    vrun (firstn k th) (rg0, m0).
+
+  Fixpoint set_regs (l : list vregs) (i : nat) (v : vregs) : list vregs :=
+    match l, i with
+    | [], _ => []
+    | _ :: r, 0 => v :: r
+    | a :: r, S i' => a :: set_regs r i' v
+    end.
+
+  Definition vstate := (pcs * list vregs * vmem)%type.
+  Definition vpc (s : vstate) := fst (fst s).
+  Definition vrs (s : vstate) := snd (fst s).
+
+  Inductive vstep (P : list vthread) : vstate -> vstate -> Prop :=
+  | vs_step pc rs m t a : t < length P ->
+      nth_error (nth t P []) (nth t pc 0) = Some a ->
+      vstep P (pc, rs, m)
+        (bump pc t, set_regs rs t (fst (vexec a (nth t rs [], m))), snd (vexec a (nth t rs [], m))).
+
+  Inductive vreach (P : list vthread) (init : list vregs) (m0 : vmem) : vstate -> Prop :=
+  | vr_init : vreach P init m0 (repeat 0 (length P), init, m0)
+  | vr_step s s' : vreach P init m0 s -> vstep P s s' -> vreach P init m0 s'.
+
+  Definition vreads (th : vthread) (x : nat) : Prop := exists i r, nth_error th i = Some (VRead r x).
+  Definition vwrites (th : vthread) (x : nat) : Prop := exists i f, nth_error th i = Some (VWrite x f).
+
+  (* nobody else writes what request t reads *)
+  Definition undisturbed (P : list vthread) (t : nat) : Prop :=
+    forall x, vreads (nth t P []) x -> forall t', t' < length P -> t' <> t -> ~ vwrites (nth t' P []) x.
+
+  (* the access skeleton of a value body: what translate/c20 extracts *)
+  Definition vaccs (th : vthread) : list (nat * bool) :=
+    flat_map (fun a => match a with VRead _ x => [(x, false)] | VWrite x _ => [(x, true)] | _ => [] end) th.
+End Values.
+
+(* accesses of a footprint body (locks dropped, atomic or not) *)
+Definition accs (th : thread) : list (nat * bool) :=
+  flat_map (fun a => match acc_loc a with Some x => [(x, acc_write a)] | None => [] end) th.
+
+Definition reads_of (th : thread) : list nat :=
+  flat_map (fun a => match acc_loc a with
+                     | Some x => if acc_write a then [] else [x]
+                     | None => [] end) th.
+
+(* bodies of a pool that read nothing that any body of the pool (or an opaque mutation,
+   list [extra]) may write *)
+Definition isolated_bodies (B : list thread) (mutable : list nat) : list thread :=
+  filter (fun b => forallb (fun x => negb (memb x mutable)) (reads_of b)) B.
